@@ -11,6 +11,7 @@ property, not only of the properties about the store itself:
            pre_reorder, all key parts compared), E-EVENT (gc / reorder brackets and epoch bumps of both managers).
 """
 import edm
+import ekey
 import eevent
 import elin
 import evlm
@@ -34,6 +35,7 @@ def run(ctx, F, dm=True):
     elin.check_forget(ctx, F)
     if dm:
         edm.run(ctx, F)
+        ekey.run(ctx, F)
     eevent.check_manager(ctx, F, "oxidd_manager_index")
     eevent.check_manager(ctx, F, "oxidd_manager_pointer")
     ctx.explain("E-VLM: the managers' variable <-> level maps (read by every var_to_level / level_to_var) stay mutually inverse: "
